@@ -128,6 +128,11 @@ def cases(tier, seed):
         for st, d in (("walk", 2), ("walk", 3), ("leaves", 2), ("doone", 2)):
             allp = rq.all_positions(d, d) if st == "leaves" else (rq.all_positions(d) if st == "doone" else rq.all_positions(d - 1))
             add(st, list(R.choice(allp)), depth=d, par=k, profile="slow_isset")
+    # interpreters whose multiprocessing start method is not fork (macOS / Windows default; Linux from Python 3.14): whatever
+    # toasty does instead of forking workers there, a failing item must still be reported
+    for m in ("spawn", "forkserver"):
+        for st in ("leaves", "walk", "sample") if tier == "quick" else ("leaves", "walk", "sample", "leaves", "walk", "sample"):
+            add("startmethod", [2, R.randrange(4), R.randrange(4)] if st != "walk" else [1, R.randrange(2), R.randrange(2)], depth=2, par=R.choice([2, 3, 4]), method=m, what=st)
     for k in (1, 2) if tier == "quick" else (1, 2, 2, 4):
         add("subprocess_cascade", [2, R.randrange(4), R.randrange(4)], depth=2, par=k, fmt=R.choice(["npy", "png"]))
     for k in (1, 2) if tier == "quick" else (1, 2, 4, 8):
@@ -393,6 +398,47 @@ def case_subprocess(spec, workdir):
     return res
 
 
+def case_startmethod(spec, workdir):
+    import subprocess
+    import sys
+
+    from vlib.core import repo_root
+
+    item = tuple(spec["item"])
+    body = {
+        "leaves": "    def cb(pos, tile):\n        if tuple(pos) == ITEM: raise RuntimeError('injected failure at %s' % (ITEM,))\n    Pyramid.new_toast(D).visit_leaves(cb, parallel=K)\n",
+        "walk": "    def cb(pos):\n        if tuple(pos) == ITEM: raise RuntimeError('injected failure at %s' % (ITEM,))\n    Pyramid.new_generic(D).walk(cb, parallel=K)\n",
+        "sample": "    import numpy as np, tempfile\n    from toasty import toast\n    from toasty.pyramid import PyramidIO\n    n = [0]\n"
+                  "    def smp(lon, lat):\n        n[0] += 1\n        if n[0] == 1 + (ITEM[1] + ITEM[2]) %% 3: raise RuntimeError('injected sampler failure')\n        return np.zeros(lon.shape, np.float32)\n"
+                  "    toast.sample_layer(PyramidIO(tempfile.mkdtemp(dir=%r), default_format='npy'), smp, D, parallel=K)\n" % workdir,
+    }[spec["what"]]
+    script = (
+        "import multiprocessing as mp, os, sys\n"
+        "mp.set_start_method(%r, force=True)\n"
+        "sys.path.insert(0, %r)\n"
+        "from toasty.pyramid import Pyramid\n"
+        "ITEM, D, K = %r, %d, %d\n"
+        "def main():\n%s"
+        "if __name__ == '__main__':\n"
+        "    try:\n        main()\n    except BaseException as e:\n        print('RAISED', type(e).__name__, e)\n        raise SystemExit(3)\n    print('RETURNED')\n" % (spec["method"], repo_root(), item, spec["depth"], spec["par"], body))
+    sp = os.path.join(workdir, "stage_script.py")
+    with open(sp, "w") as f:
+        f.write(script)
+    counters = collections.Counter({"faults_startmethod_" + spec["method"]: 1, "faults_k%d" % spec["par"]: 1})
+    try:
+        r = subprocess.run([sys.executable, sp], capture_output=True, text=True, timeout=90, start_new_session=True)
+    except subprocess.TimeoutExpired:
+        return dict(status="inconclusive", detail="stage %s under start method %s still running after 90 s (wall clock only: no verdict)" % (spec["what"], spec["method"]))
+    res = dict(counters=counters, nontrivial=True, sample=dict(spec=spec, stdout_tail=r.stdout[-200:], stderr_tail=r.stderr[-300:]),
+               sets=dict(fault_points=[["startmethod", spec["method"], spec["what"], spec["par"]]]))
+    if "RETURNED" in r.stdout:
+        res.update(status="violation", key="startmethod-%s:%s:returned" % (spec["method"], spec["what"]),
+                   detail="start method %s, %s with parallel=%d: the failure injected at %s was not reported, the call returned normally; stderr tail: %s" % (spec["method"], spec["what"], spec["par"], item, r.stderr[-300:]))
+    elif "RAISED" not in r.stdout:
+        res.update(status="inconclusive", detail="stage script ended with %s without a verdict: %s" % (r.returncode, r.stderr[-300:]))
+    return res
+
+
 def run_case(spec, workdir):
     from vlib import sched
 
@@ -405,6 +451,8 @@ def run_case(spec, workdir):
 def _run_case(spec, workdir):
     if spec["stage"] == "subprocess_cascade":
         return case_subprocess(spec, workdir)
+    if spec["stage"] == "startmethod":
+        return case_startmethod(spec, workdir)
     par = spec["par"]
     instr_mp.install(spec["profile"] if par > 1 else "natural", spec["seed"])
     log = os.path.join(workdir, "log")
